@@ -27,6 +27,7 @@
 #include <xercesc/framework/XMLElementDecl.hpp>
 #include <xercesc/framework/XMLContentModel.hpp>
 #include <xercesc/validators/DTD/DTDAttDef.hpp>
+#include <xercesc/util/XercesVerifHooks.hpp>
 
 namespace XERCES_CPP_NAMESPACE {
 
@@ -198,6 +199,7 @@ inline const ContentSpecNode* DTDElementDecl::getContentSpec() const
 
 inline XMLContentModel* DTDElementDecl::getContentModel()
 {
+    XERCES_VERIF_POINT_IF(!fContentModel, LazyEnter, this, VerifHooks::SiteDTDContentModel, 0);
     if (!fContentModel)
         fContentModel = makeContentModel();
     return fContentModel;
